@@ -13,7 +13,12 @@ go test -mod=mod -vet=off -count=1 -run TestSeededDemo ./$pkg/ > /tmp/confirm-$$
 git apply "$d/patch.diff" || { echo '{"error":"patch does not apply"}'; exit 2; }
 go build ./... > /tmp/confirm-$$.b 2>&1; build=$?
 mv "$pkg/zz_demo_test.go" /tmp/confirm-$$.demo
-go test -mod=mod -vet=off -count=1 ./... > /tmp/confirm-$$.c 2>&1; suite=$?
+# The pinned suite has flaky tests on the unchanged tree (m TestTable ~7 %, mgr timing tests):
+# a failing run is repeated up to three times; "passes" = one complete green run.
+for attempt in 1 2 3 4; do
+  go test -mod=mod -vet=off -count=1 ./... > /tmp/confirm-$$.c 2>&1; suite=$?
+  [ $suite -eq 0 ] && break
+done
 cp /tmp/confirm-$$.demo "$pkg/zz_demo_test.go"
 go test -mod=mod -vet=off -count=1 -run TestSeededDemo ./$pkg/ > /tmp/confirm-$$.d 2>&1; with=$?
 echo "{\"demo_without_change_exit\": $without, \"build_with_change_exit\": $build, \"suite_with_change_exit\": $suite, \"demo_with_change_exit\": $with}"
